@@ -589,6 +589,9 @@ pub fn suite_checksum(ctx: &Ctx, thorough: bool) {
         big.push(vec![(leak_s(inflate("Xy", n)), leak_b(vec![0xAB; 2])), ("a", leak_b((0..n).map(|i| (i * 37 % 256) as u8).collect()))]);
         big.push(vec![(leak_s(format!("{}É", inflate("q", n))), leak_b(vec![1])), (leak_s(format!("{}é", inflate("Q", n))), leak_b(vec![2]))]);
     }
+    // context-sensitive lower-casing (a word-final capital sigma): the algorithm name is lower-cased character by character
+    big.push(vec![("ΑΣ", leak_b(vec![1])), ("ασ", leak_b(vec![2]))]);
+    big.push(vec![("ασ", leak_b(vec![1])), ("ΑΣ", leak_b(vec![2])), ("Σ", leak_b(vec![3])), ("ΣΑ", leak_b(vec![4]))]);
     par_for(big.len(), &|i| checksum_one(ctx, big[i].clone()));
     // every short checksum TEXT (entries, separators, case, duplicates, prefixes) as the qualifier of a parsed PURL: if it is accepted
     // the stored text is the one canonical text, the typed accessor reads it back, and its text form is that text again
@@ -723,7 +726,7 @@ impl FromStr for Shape {
     }
 }
 
-pub const HOOKS: u8 = 9;
+pub const HOOKS: u8 = 10;
 impl PurlShape for Shape {
     type Error = ShapeErr;
     fn package_type(&self) -> Cow<str> { Cow::Borrowed(&self.ty) }
@@ -739,7 +742,9 @@ impl PurlShape for Shape {
             5 => { parts.qualifiers.insert("checksum", "B:00FF,a:11").unwrap(); },
             6 => { parts.qualifiers.insert("checksum", "zz").unwrap(); },
             7 => { parts.name = "Hooked Name".into(); parts.namespace = SmallString::new(); parts.version = SmallString::new(); parts.subpath = SmallString::new(); },
-            _ => { parts.qualifiers.clear(); },
+            8 => { parts.qualifiers.clear(); },
+            // blanks the checksum: an empty value, removed by the generic checks BEFORE the checksum is looked at
+            _ => { parts.qualifiers.insert("checksum", "").unwrap(); },
         }
         Ok(())
     }
@@ -789,12 +794,16 @@ pub fn suite_protocol(ctx: &Ctx, thorough: bool) {
                     6 => false,
                     7 => o.name == "Hooked Name" && o.namespace.is_none() && o.version.is_none() && o.subpath.is_none(),
                     8 => o.qualifiers.is_empty(),
+                    9 => p.qualifiers().get("checksum").is_none(),
                     _ => true,
                 };
                 if !ok { ctx.violate("C14.post", "what the hook writes is what the PURL reports, after the generic checks", inp(), format!("{o:?}"), format!("hook {hook}")); }
                 if let Ok(t) = guarded(|| p.to_string()) { check_format(ctx, &inp(), &o, &t); }
             } else if f == 1 {
-                let ok = match hook { 2 => matches!(&r, Err(ShapeErr::Parse(m)) if m.contains("Name")), 6 => matches!(&r, Err(ShapeErr::Parse(m)) if m.contains("InvalidQualifier") || m.contains("Name")), _ => true };
+                let ok = match hook { 2 => matches!(&r, Err(ShapeErr::Parse(m)) if m.contains("Name")), 6 => matches!(&r, Err(ShapeErr::Parse(m)) if m.contains("InvalidQualifier") || m.contains("Name")),
+                    // a hook that only adds empty values, clears the list or blanks the checksum cannot turn an accepted string into a refused one
+                    4 | 8 | 9 => !matches!(&generic, Ok(Ok(_))),
+                    _ => true };
                 if !ok { ctx.violate("C14.post", "an emptied name / malformed checksum from the hook is refused with the generic error", inp(), format!("{r:?}"), "Parse(..)".into()); }
             }
         };
